@@ -128,7 +128,7 @@ fn num(n: Num, i: i64) -> V {
     }
 }
 
-const LONG_LEN: usize = 1000;
+const LONG_LEN: usize = 1100;
 
 /// The key pool of a schema, sorted by the engine's own key order (so pool index order = key order).
 fn pool(schema: Schema, n: Num, long: bool) -> Vec<K> {
@@ -798,8 +798,82 @@ struct Shape {
     seps: Vec<Vec<Vec<SqlValue>>>,
 }
 
+/// Result of the guard walk.
+enum Guard {
+    /// page ids in the order `verif_walk` will visit them
+    Finite(Vec<u64>),
+    /// a page is reachable twice (shared child or cycle): `verif_walk` would run away
+    Repeat(u64),
+    /// a page that is neither a parsable internal node nor a leaf was reached before any repeat:
+    /// `verif_walk` stops there with an error, so it is safe to call
+    Unparsable,
+}
+
+/// Safety guard in front of the `verif_walk` hook. The hook follows child pointers without a
+/// visited set and only gives up after 1M nodes, keeping every node (with cloned keys) in memory:
+/// on a tree whose child pointers are shared or cyclic it runs for minutes and allocates
+/// gigabytes. This guard makes the same depth-first walk reading only page type and child pointers
+/// of internal nodes (production `read_sql_value` for the keys), with a visited set, so it always
+/// terminates after at most one visit per page. It never decides a verdict on a healthy tree; there
+/// its page sequence is cross-checked against the hook's (mismatch => harness error, exit 2), so
+/// a drift between this reader and the page format cannot turn into a false alarm unnoticed.
+fn guard_walk(pm: &PageManager, root: u64) -> Guard {
+    use std::io::Read;
+    let mut seen: std::collections::HashSet<u64> = std::collections::HashSet::new();
+    let mut order = Vec::new();
+    let mut stack = vec![root];
+    while let Some(id) = stack.pop() {
+        if !seen.insert(id) {
+            return Guard::Repeat(id);
+        }
+        order.push(id);
+        let Ok(page) = pm.read_page(id) else { return Guard::Unparsable };
+        match page.data[0] {
+            2 => {} // leaf
+            1 => {
+                let mut cur = std::io::Cursor::new(&page.data[1..]);
+                let mut b2 = [0u8; 2];
+                if cur.read_exact(&mut b2).is_err() {
+                    return Guard::Unparsable;
+                }
+                let nkeys = u16::from_le_bytes(b2) as usize;
+                for _ in 0..nkeys {
+                    if cur.read_exact(&mut b2).is_err() {
+                        return Guard::Unparsable;
+                    }
+                    for _ in 0..u16::from_le_bytes(b2) {
+                        if vibesql_storage::persistence::binary::value::read_sql_value(&mut cur).is_err() {
+                            return Guard::Unparsable;
+                        }
+                    }
+                }
+                let mut children = Vec::with_capacity(nkeys + 1);
+                for _ in 0..=nkeys {
+                    let mut b8 = [0u8; 8];
+                    if cur.read_exact(&mut b8).is_err() {
+                        return Guard::Unparsable;
+                    }
+                    children.push(u64::from_le_bytes(b8));
+                }
+                for c in children.into_iter().rev() {
+                    stack.push(c);
+                }
+            }
+            _ => return Guard::Unparsable,
+        }
+    }
+    Guard::Finite(order)
+}
+
 /// Well-formedness of the persisted tree + equality of its content with the model.
-fn check_tree(idx: &BTreeIndex, model: &Model) -> Result<Shape, Bad> {
+fn check_tree(idx: &BTreeIndex, pm: &PageManager, model: &Model) -> Result<Shape, Bad> {
+    let expect_order = match guard_walk(pm, idx.root_page_id()) {
+        Guard::Repeat(p) => {
+            return Err(bad("wf.shared_or_cyclic_page", format!("page {} is reachable twice from the root (shared child pointer or cycle)", p)));
+        }
+        Guard::Finite(o) => Some(o),
+        Guard::Unparsable => None,
+    };
     let nodes = match catch(|| idx.verif_walk()) {
         Err(p) => return Err(bad(format!("wf.walk_panic.{}", panic_class(&p)), format!("walking the tree panicked: {}", p))),
         Ok(Err(e)) => {
@@ -810,8 +884,21 @@ fn check_tree(idx: &BTreeIndex, model: &Model) -> Result<Shape, Bad> {
         }
         Ok(Ok(n)) => n,
     };
+    if let Some(o) = &expect_order {
+        let got: Vec<u64> = nodes.iter().map(|n| n.page_id).collect();
+        if &got != o {
+            return Err(bad("harness.guard_out_of_sync", format!("guard walk saw pages {:?} but verif_walk returned {:?}: the guard's page reader no longer matches the page format", o, got)));
+        }
+    } else {
+        return Err(bad("harness.guard_out_of_sync", "guard walk hit an unparsable page but verif_walk succeeded"));
+    }
     let height = idx.height();
     let degree = idx.degree();
+    // no tree of this check has more than a few hundred nodes (<= 601 keys): a walk that returns
+    // thousands of nodes is going round shared / cyclic child pointers
+    if nodes.len() > 5_000 {
+        return Err(bad("wf.runaway_walk", format!("walk visited {} nodes: child pointers are shared or cyclic", nodes.len())));
+    }
     if nodes.is_empty() {
         return Err(bad("wf.no_root", "walk returned no node"));
     }
@@ -1290,7 +1377,8 @@ impl Check for C17 {
         Ok(())
     }
     fn max_shrink_iters(&self) -> u32 {
-        4000
+        // a candidate is a whole history (tens of ms); tape shrinking gains most in its first steps
+        1000
     }
 
     fn build(&self, t: &mut Tape, cfg: &GenCfg) -> Case {
@@ -1356,7 +1444,7 @@ impl Check for C17 {
             }
             v.push(Case { schema: Schema::Int, num: Num::Double, bulk: Some(bulk), ops: vec![Op::Range { lo: None, hi: None, inc_lo: true, inc_hi: true }], excluded: 0, avoid: false });
         }
-        // four 1000-byte strings in a VARCHAR(10000) index
+        // four 1100-byte strings in a VARCHAR(10000) index
         {
             let p = pool(Schema::Str(10000), Num::Double, true);
             let longs: Vec<&K> = p.iter().filter(|k| matches!(&k[0], V::Varchar(s) if s.len() >= 500)).collect();
@@ -1459,7 +1547,7 @@ impl Check for C17 {
             return Verdict::Harness(format!("harness.degree_model: tree degree {} but the generator assumes {} for {}", sut.idx().degree(), degree_of(case.schema), case.schema.name()));
         }
         obs.class(&format!("degree:{}", sut.idx().degree()));
-        let mut shape = match check_tree(sut.idx(), &model) {
+        let mut shape = match check_tree(sut.idx(), sut.pm.as_ref().expect("page manager"), &model) {
             Ok(s) => s,
             Err((s, _)) if skip_wf && !s.starts_with("harness.") => Shape { height: sut.idx().height(), leaves: 0, internals: 0, seps: vec![] },
             Err((s, d)) => return finish(obs, &ev, (format!("{}.after_{}", s, if case.bulk.is_some() { "bulk_load" } else { "new" }), d), "after creation".into()),
@@ -1478,7 +1566,7 @@ impl Check for C17 {
                         obs.class(&format!("page_overflow:{}:{}", case.schema.name(), name));
                         // informational: did the failed write leave the tree intact (minus the new entry)?
                         if let Some(idx) = sut.idx.as_ref() {
-                            obs.class(if check_tree(idx, &model).is_ok() { "overflow_err.tree_intact" } else { "overflow_err.tree_damaged" });
+                            obs.class(if check_tree(idx, sut.pm.as_ref().expect("page manager"), &model).is_ok() { "overflow_err.tree_intact" } else { "overflow_err.tree_damaged" });
                         }
                     }
                     return finish(obs, &ev, b, at);
@@ -1487,7 +1575,7 @@ impl Check for C17 {
             if !mutated {
                 continue;
             }
-            let new_shape = match check_tree(sut.idx(), &model) {
+            let new_shape = match check_tree(sut.idx(), sut.pm.as_ref().expect("page manager"), &model) {
                 Ok(s) => s,
                 Err((s, _)) if skip_wf && !s.starts_with("harness.") => continue,
                 Err((s, d)) => {
